@@ -55,7 +55,10 @@ RULE_ADDED = (
               'te. '
               ' '
               'Round 15: `signapp eth` against a simulated Ethereum app, honest and dishonest i'
-              'n five ways; key runs reading the image through a pipe. ')
+              'n five ways; key runs reading the image through a pipe. '
+              ' '
+              'Round 18: loaded authorizations saved unmodified to a fresh path (or over anothe'
+              "r signer's file), and once more from the re-loaded object. ")
 RULE = RULE + " " + RULE_ADDED.strip()
 ASSUMPTIONS = [
     "own Keccak-256 (pv/oracle/hashes.py) and OpenSSL verification are the oracles",
@@ -429,12 +432,27 @@ def run_case(acc, cseed, tmpdir):
     # ------------------------------------------------------------- round trip --
     sa = SignerAuthorization.from_jsonfile(out)
     p2 = os.path.join(tmpdir, "auth-rt.json")
-    sa.save_to_jsonfile(p2)
-    sa2 = SignerAuthorization.from_jsonfile(p2)
+    # (a fresh path, or one that holds another authorization - of another signer)
+    if os.path.exists(p2) and rng.random() < 0.5:
+        os.unlink(p2)
     acc.count("roundtrips")
     acc.evaluations += 1
-    if sa.to_dict() != sa2.to_dict() or json.load(open(p2)) != json.load(open(out)):
-        bad("authorization-file-changes-on-save-load")
+    try:
+        sa.save_to_jsonfile(p2)
+        sa2 = SignerAuthorization.from_jsonfile(p2)
+        same = sa.to_dict() == sa2.to_dict() and json.load(open(p2)) == json.load(open(out))
+        # ... and once more, from the loaded object to a third path
+        p2b = os.path.join(tmpdir, "auth-rt2.json")
+        if os.path.exists(p2b):
+            os.unlink(p2b)
+        sa2.save_to_jsonfile(p2b)
+        same = same and json.load(open(p2b)) == json.load(open(out))
+    except Exception as e:
+        same = False
+        bad("authorization-does-not-survive-save-load", exc=repr(e)[:200])
+    else:
+        if not same:
+            bad("authorization-file-changes-on-save-load")
     # ---- a signature refused by add_signature is refused: the object goes on as if it had
     # never been offered (a script that collects signatures from several people and skips
     # the ones turned down) - what it saves loads back and holds the accepted ones, in order
